@@ -27,7 +27,7 @@ SYMS = ['"a"', '"b"', 'r"[a-z]+"', 'r"a*"', 'r""', 'r"(?i)x"', 'r"\\b"', 'r"a*?"
 ACTIONS = [' => ()', ' => <>', ' => (<>)', ' => {<>}', ' => Foo {<>}', ' => vec![<>, <>]', ' =>? Ok(())', ' =>? Err(ParseError::User { error: () })', ' =>@L', ' =>@R',
            ' => { "<>" }', ' => { r"\\" }', ' => { \'}\' }', ' => { (', ' => )', ' => "unterminated', " => 'a", ' => x', ' => { <> <> }', ' => format!("{}", <>)', '']
 CONDS = ['', ' if X == "a"', ' if X != "a"', ' if X ~~ "a"', ' if X !~ "a"', ' if X ~~ "("', ' if Y == "a"', ' if X == ""', ' if S == "a"']
-TYPES = ['', ': ()', ': u32', ': Vec<u32>', ": &'input str", ': (u32, u32)', ': Box<Self>', ': Vec<X>', ': X', ': <X as Y>::Z', ': #X#', ": &'a mut T", ': dyn Foo', ': [u8; 4]', ': fn(u32) -> u32', ': (', ': ::std::string::String']
+TYPES = ['', ': ()', ': u32', ': #S#', ': #"a"*#', ': Vec<#A#>', ': #(S S)#', ': #@L#', ': #M<S>#', ': Vec<u32>', ": &'input str", ': (u32, u32)', ': Box<Self>', ': Vec<X>', ': X', ': <X as Y>::Z', ': #X#', ": &'a mut T", ': dyn Foo', ': [u8; 4]', ': fn(u32) -> u32', ': (', ': ::std::string::String']
 HEADERS = ['grammar;', 'grammar<T>;', "grammar<'a>(x: &'a str);", 'grammar(v: u32, e: u32);', 'grammar<T>(t: T) where T: Clone;', 'grammar where;', 'grammar(;', 'grammar<>;',
            'grammar;;', '', 'grammar', 'use foo::bar;\ngrammar;', '#![allow(unused)]\ngrammar;', '#[LALR] grammar;', '#[recursive_ascent] #[LALR] grammar;', '#[LALR] #[LALR] grammar;', "grammar<'input>(input: &'input str);", "grammar(input: u32);"]
 EXTERNS = ['', 'extern { type Location = usize; type Error = (); enum Tok { "a" => Tok::A, "b" => Tok::B(<u32>), Id => Tok::Id(<String>) } }',
@@ -185,6 +185,9 @@ def job(spec):
     if kind == "probe_f12":
         from .. import probes
         data = probes.F12_TEXT.encode()
+    elif kind == "probe_f23":
+        from .. import probes
+        data = probes.F23_TEXT.encode()
     elif kind == "token":
         data = mutate_tokens(rng, rng.choice(cps), pool).encode()
     elif kind == "gen_token":
@@ -227,6 +230,8 @@ def job(spec):
         st = "diagnostic"
     else:
         st = "abnormal_exit"
+    if kind.startswith("probe_"):
+        env, extra = {}, []
     r = {"kind": kind, "seed": seed, "status": st, "rc": rc}
     if st in ("panic", "abnormal_exit", "timeout"):
         r["data_hex"] = data.hex()
@@ -258,6 +263,7 @@ def run(tier, seed):
             specs.append((kind, base + i, bin_, chk.work, 20))
             i += 1
     specs.append(("probe_f12", 0, bin_, chk.work, 20))     # deterministic probe of known finding F12
+    specs.append(("probe_f23", 0, bin_, chk.work, 20))     # deterministic probe of known finding F23
     results = core.pmap(job, specs, chunksize=32)
     keys = {}
     for r in results:
